@@ -342,6 +342,24 @@ def arcborrow_probes(thorough):
     out.append(borrow_probe("ctl-ab-get-outlives-borrow", "control", k, "ArcBorrow::get", "get() outlives the ArcBorrow, not the Arc", body,
                             ["tie ArcBorrow::get"], [], ["ArcBorrow::get", ba], expect="accept", strict=False,
                             predict={"accept_if_all": ["selflt", "unbounded"]}))
+    # feature `unsize`: the coerced borrow (to a slice / a trait object / a fn object) must keep the region of the borrow
+    UNS = "extern crate unsize;\nuse unsize::{CoerceUnsize, Coercion};\n"
+    rp = "ArcBorrow::replace_ptr"
+    for tag, ty, mk, co in (("slice", "[u8]", "Arc::new([1u8, 2])", "Coercion::to_slice()"),
+                            ("any", "dyn Any", "Arc::new(5u32)", "Coercion::to_any()"),
+                            ("fn", "dyn Fn() -> u32", "Arc::new(|| 42u32)", "Coercion::<_, dyn Fn() -> u32>::to_fn()")):
+        body = UNS + "fn main() { let c: ArcBorrow<%s>; { let a = %s; let b = a.borrow_arc(); c = b.unsize(%s); } touch(&c); }\n" % (ty, mk, co)
+        out.append(borrow_probe("ab-unsize-%s-outlives-arc" % tag, "arcborrow", k, rp, "unsized borrow outlives the Arc", body,
+                                ["region " + ba, "region " + rp], ["bounded"], [ba, rp]))
+        body = UNS + "fn main() { let a = %s; let b = a.borrow_arc(); let c: ArcBorrow<%s> = b.unsize(%s); drop(a); touch(&c); }\n" % (mk, ty, co)
+        out.append(borrow_probe("ab-unsize-%s-arc-dropped" % tag, "arcborrow", k, rp, "Arc dropped while the unsized borrow lives", body,
+                                ["region " + ba, "region " + rp], ["bounded"], [ba, rp]))
+        body = UNS + "fn main() { let a = %s; let b = a.borrow_arc(); let c: ArcBorrow<%s> = b.unsize(%s); touch(&c); drop(a); }\n" % (mk, ty, co)
+        out.append(borrow_probe("ctl-ab-unsize-%s" % tag, "control", k, rp, "unsized borrow used while the Arc lives", body, [], [], [ba, rp],
+                                expect="accept", predict={"const": "accept"}))
+    body = UNS + "fn esc() -> ArcBorrow<'static, [u8]> { let a = Arc::new([1u8, 2]); let b = a.borrow_arc(); b.unsize(Coercion::to_slice()) }\nfn main() {}\n"
+    out.append(borrow_probe("ab-unsize-static", "arcborrow", k, rp, "unsized borrow returned as 'static", body,
+                            ["region " + ba, "region " + rp], ["bounded"], [ba, rp]))
     # through OffsetArc / ArcUnion
     body = "fn main() { let r; { let o = %s; let b = o.borrow_arc(); r = b.get(); } touch(&r); }\n" % MK["OffsetArc"]
     out.append(borrow_probe("ab-get-outlives-offset", "arcborrow", "OffsetArc", "ArcBorrow::get", "get() outlives the OffsetArc", body,
